@@ -124,7 +124,7 @@ def rule_bound(ctx):
         return n + len(uncond_app)
     bad = None
     cases = 0
-    for w in range(1, 7):
+    for w in range(1, 17 if ctx.tier == "thorough" else 7):
         for n in range(0, w + 1):
             cases += 1
             n2 = step(n, w)
